@@ -45,6 +45,10 @@ type SeqCase struct {
 	// SameFlags verifies every input under the flags of the first program (what a validator
 	// does); otherwise each input is verified under its own program's flags
 	SameFlags bool `json:"same_flags,omitempty"`
+	// AmountOff[k] is added to the spent value handed to verification k (0 most of the time): the
+	// value that counts is the one of the previous output passed to that very Execute call, not
+	// one recorded on the transaction object or left there by an earlier call
+	AmountOff []int64 `json:"amount_off,omitempty"`
 }
 
 func checkSeq(ctx *pbt.Ctx, c SeqCase) error {
@@ -71,6 +75,10 @@ func checkSeq(ctx *pbt.Ctx, c SeqCase) error {
 			flags = interp.Flags(c.Progs[c.Order[0]].Flags)
 		}
 		unlock := m.In[i].Unlock
+		if k < len(c.AmountOff) && c.AmountOff[k] != 0 {
+			p.Amount = uint64(int64(p.Amount) + c.AmountOff[k])
+			ctx.Label("spent_value_differs_from_recorded")
+		}
 		r := interp.VerifyScript(unlock, p.Lock, flags, interp.TxChecker{Tx: m, Idx: i, Amount: p.Amount}, true, lim)
 		if r.BudgetHit {
 			ctx.Discard("over_budget")
@@ -183,6 +191,11 @@ func genSeqCase(t *rapid.T) SeqCase {
 		}
 	}
 	c.SameFlags = rapid.IntRange(0, 2).Draw(t, "same_flags") == 0
+	if rapid.IntRange(0, 2).Draw(t, "amount_off") == 0 {
+		for range c.Order {
+			c.AmountOff = append(c.AmountOff, rapid.SampledFrom([]int64{0, 0, 1, -1, 1000, 1 << 32}).Draw(t, "amount_off_v"))
+		}
+	}
 	return c
 }
 
